@@ -5,6 +5,12 @@ HERE = os.path.dirname(os.path.abspath(__file__))
 TB = ("Lean 4.33.0 kernel (axioms: propext, Classical.choice, Quot.sound only; audited per theorem); "
       "hand-written Lean model tied to the code by an in-process differential correspondence run (go build -overlay harness) on every run; ")
 CHECKS = {
+ "C11": dict(text="Lean theorems over the three text fixes (rune-indexed, as repaired): useAssign_spec / noWs_spec (the only possible change is the documented single-character insertion at the reported column, guarded by the character found there), fixAt_local / fixAt_guard (no other line, no change when the guard fails), closingQuote_spec (no index escapes the line), nonRaw_pattern_preserved (raw string has the value of the interpreted string for \\\\-only patterns), noWs_progress. Tie: exhaustive function-level runs of the real Fix methods vs the model; generated modules through the real Fixer with an OPA-AST oracle (parses; AST equal up to '=' -> ':='; comments equal up to one space).",
+             note=TB + "that the reported column is the operator/comment/literal is the rules' (Env) business: sampled, not proved; OPA formatter trusted", ref="5/C11",
+             technique="Lean 4 proof over text-fix models + exhaustive differential correspondence + AST-equality oracle"),
+ "C12": dict(text="Lean theorems over the abstract fix loop (any linter, any fixes): loop_idempotent and loop_post unconditionally, loop_terminates under the explicit progress hypothesis (each successful fix decreases a measure); eq_in_head_loops_forever proves non-termination of the rule as it was before its repair. Tie: generated workspaces x subsets of the six fixable rules through the real Fixer (watchdog): terminates, nothing fixable left on re-lint, second run is a no-op, fix succeeds whenever lint accepted.",
+             note=TB + "progress hypothesis is Env side (a correct fix removes its violation): sampled", ref="5/C12",
+             technique="Lean 4 proof (fuel/measure induction over the loop model) + end-to-end oracle on the real fixer"),
  "C18": dict(text="Lean theorems findUpwards_nearest and findConfig_spec (chains of any depth: a returned config sits in the closest directory that has a .regal directory or .regal.yaml; both kinds there is the conflict error), fallback_chain (no config: user-level file, else defaults), merge_keeps_defaults / merge_only_overrides / merge_ignore; deviations proved on the model and replayed (conflict_swallowed, empty_regal_dir_shadows: known findings). Tie: exhaustive placements on depth <= 4 through the real FindConfig on temp directories; the real `regal lint` binary with a fake $HOME revealing which config file was applied; merge of generated user configs over the real defaults (every default rule and option kept unless written) and YAML dump/reload.",
              note=TB + "mergo and yaml.v3 are sampled, not modelled beyond levels/ignore; capabilities round trip is a known finding", ref="5/C18",
              technique="Lean 4 proof (induction on the directory chain) + exhaustive differential correspondence + end-to-end oracle"),
